@@ -26,7 +26,7 @@ LEVEL = ('Exhaustive check of every entry of every calendar table against indepe
          'rule, plus loop-shape/window argument; finite and complete for the table clauses.')
 LEVEL_NOTE = ('Trusts clang 14 AST/constant folding in sa/expr.py; the arithmetic of get_weekday (year mod 400, '
               '/4 -/100 +/400 terms) is value semantics and not decided.')
-TECHNIQUE = 'constant-table relation checking + switch exhaustiveness + loop-shape/window analysis over clang AST'
+TECHNIQUE = 'constant-table relation checking + switch exhaustiveness + abstract executions on weekday partitions + term-structure check of the leap corrections'
 
 
 def _moves_ok(moves, op, want):
